@@ -91,7 +91,17 @@ def seed_lints(prog, rng):
 
     def expr_lints(n):
         if n.get("k") == "bin" and n.get("op") in ("&&", "||") and n["l"]["k"] in ("var", "bool") and rng.random() < 0.5:
-            n["l"], n["r"] = E("bin", BOOL, op=n["op"], l=n["l"], r=n["r"]), copy.deepcopy(n["l"])
+            dup = copy.deepcopy(n["l"])
+            # the duplicate (and sometimes the first occurrence) inside 1..3 pairs of redundant parentheses
+            x = rng.random()
+            if x < 0.45:
+                for _ in range(rng.choice([1, 2, 2, 3])):
+                    dup = E("paren", BOOL, e=dup)
+                kinds.add("repeated-bool-parenthesised")
+            first = n["l"]
+            if rng.random() < 0.15:
+                first = E("paren", BOOL, e=first)
+            n["l"], n["r"] = E("bin", BOOL, op=n["op"], l=first, r=n["r"]), dup
             kinds.add("repeated-bool")
         if n.get("k") == "bin" and n.get("op") in ("==", "!=", ">") and n["l"]["k"] == "mcall" and n["l"]["m"] == "len" \
                 and isinstance(n["l"]["recv"]["ty"], list) and rng.random() < 0.7:
